@@ -44,7 +44,7 @@ type Op struct {
 	Fees  *Fees     `json:"fees"`
 	Fast  bool      `json:"fast"`  // the seeded new request needs no fetch
 	Flags [][]int   `json:"flags"` // TLC behaviours: the model's prediction of the sent flags after the step
-	Rev   bool      `json:"rev"` // relay the services' transactions to the producer in reverse order
+	Rev   bool      `json:"rev"`   // relay the services' transactions to the producer in reverse order
 	// node steps
 	Node   int    `json:"node"`
 	Req    int    `json:"req"` // 1-based position of the request in the world
@@ -81,6 +81,7 @@ type runner struct {
 	nmsg   int
 	nsent  int
 	lvl    int
+	ndrift int
 	failed string
 }
 
@@ -340,6 +341,9 @@ func (r *runner) compareFlags(op Op) {
 	r.res.Inc("oraclesvc_flag_predictions", 1)
 	if !same {
 		r.res.Inc("oraclesvc_flag_drift", 1)
+		if r.ndrift++; r.ndrift > 1 {
+			return
+		}
 		r.res.AddDrift(map[string]any{"part": "oraclesvc", "world": r.src, "op": op.Op, "model_sent": fmt.Sprint(op.Flags), "real_sent": fmt.Sprint(got)})
 	}
 }
@@ -358,8 +362,10 @@ func (r *runner) node(i int) *Node {
 	return r.w.Nodes[i]
 }
 
-// feeLevels are the fee policies the schedules switch between: fee per byte, exec fee factor, OracleResponse attribute fee.
-var feeLevels = [][3]int64{{1000, 30, 0}, {1500, 30, 0}, {700, 40, 0}, {1000, 25, 0}, {1000, 30, 100_0000}}
+// feeLevels are the fee policies the schedules switch between: fee per byte, exec fee factor, OracleResponse attribute fee,
+// price of an oracle request.
+var feeLevels = [][4]int64{{1000, 30, 0, 5000_0000}, {1500, 30, 0, 5000_0000}, {700, 40, 0, 5000_0000}, {1000, 25, 0, 5000_0000}, {1000, 30, 100_0000, 5000_0000},
+	{1000, 30, 0, 3000_0000}, {1200, 30, 0, 7000_0000}}
 
 func feeChange(from, to int) *Fees {
 	if from == to || to < 0 || to >= len(feeLevels) {
@@ -375,6 +381,9 @@ func feeChange(from, to int) *Fees {
 	}
 	if a[2] != b[2] {
 		f.Attr = b[2]
+	}
+	if a[3] != b[3] {
+		f.Price = b[3]
 	}
 	return f
 }
@@ -814,7 +823,9 @@ func scripted(n int) map[string][]Op {
 			backupTo0 = append(backupTo0, o)
 		}
 	}
-	m["twotx"] = cat([]Op{{Op: "init", N: n, Inc: 4, Desig: all}, {Op: "mine", Specs: []ReqSpec{{Cls: "ok", Filter: "$.f", Gas: 100}}}},
+	// (a second request stays pending meanwhile: the Oracle contract's balance covers both transactions, only the pool's
+	// one-response-per-request rule stands between them and a block with two responses to one request)
+	m["twotx"] = cat([]Op{{Op: "init", N: n, Inc: 4, Desig: all}, {Op: "mine", Specs: []ReqSpec{{Cls: "ok", Filter: "$.f", Gas: 100}, {Cls: "err500", Gas: 400}}}},
 		dl, ansAll(1), ticks, backupTo0, mainNot0, []Op{{Op: "mine", Rev: true}}, dl, sigsAll(1, "main"), ticks, []Op{{Op: "mine"}}, dl, []Op{{Op: "final"}})
 	m["repro-insufficient"] = cat([]Op{{Op: "init", N: n, Inc: 4, Desig: all}, {Op: "mine", Specs: []ReqSpec{{Cls: "maxsize", Gas: 50}}}},
 		dl, ansAll(1), sigsAll(1, "main"), []Op{{Op: "final"}})
@@ -832,6 +843,13 @@ func scripted(n int) map[string][]Op {
 		dl, ansAll(1), everyone(func(i int) []Op { return []Op{{Op: "restart", Node: i, Ledger: i%2 == 0}} }), ansAll(1), ansAll(2),
 		[]Op{{Op: "mine", Desig: sub, Fee: &one}}, dl, sigsAll(1, "main"), everyone(func(i int) []Op { return []Op{{Op: "restart", Node: i, Ledger: i%2 == 1}} }),
 		[]Op{{Op: "final"}})
+	// the price of a request changes, every ledger restarts (half of them), a request is made at the new price and answered
+	five, six := 5, 6
+	m["restart-price"] = cat([]Op{{Op: "init", N: n, Inc: 5, Desig: all}, {Op: "mine", Fee: &five}}, dl,
+		everyone(func(i int) []Op { return []Op{{Op: "restart", Node: i, Ledger: i%2 == 0}} }),
+		[]Op{{Op: "mine", Specs: []ReqSpec{{Cls: "ok", Filter: "$.s", Gas: 100}}}}, dl, ansAll(1), sigsAll(1, "main"), []Op{{Op: "mine", Fee: &six}}, dl,
+		everyone(func(i int) []Op { return []Op{{Op: "restart", Node: i, Ledger: i%2 == 1}} }),
+		[]Op{{Op: "mine", Specs: []ReqSpec{{Cls: "timeout", Gas: 100, Throw: true}}}}, dl, ansAll(2), sigsAll(2, "main"), []Op{{Op: "final"}})
 	return m
 }
 
